@@ -712,6 +712,113 @@ def check(rep, tier, seed):
             rep.violation({"check": "process-died" if r.rc != 0 else "interrupted-thread-result", "family": "interrupt",
                            "how": r.describe() if r.rc != 0 else "wrong final line"},
                           {"sched": sched, "program": intr_src % n_k, "last_line": last[:300], "stderr": r.err[-600:]})
+    # ---- callbacks: procedures that C code calls back into (sort comparators and keys, hash and equivalence procedures of
+    # hash tables, custom port procedures) raise, or escape through a continuation captured outside the C call; the escape
+    # has to unwind the C frames, and the rest of the program has to run as if nothing had happened ---------------------------
+    cb_imports = ("(import (scheme base) (scheme write) (scheme eval) (srfi 95) (srfi 69) (srfi 18) (chibi io) "
+                  "(only (chibi) current-environment))")
+    cb_via = {
+        "sort-less": "(sort (list 3 1 2 5 4) (lambda (a b) (if (= a 1) {ESC} (< a b))))",
+        "sort-key": "(sort (list 3 1 2 5 4) < (lambda (x) (if (= x 2) {ESC} x)))",
+        "sort!-vector": "(sort! (vector 3 1 2 5 4) (lambda (a b) (if (= a 1) {ESC} (< a b))))",
+        "sort-long": "(sort (let lp ((i 0) (a '())) (if (< i 300) (lp (+ i 1) (cons (modulo (* i 7919) 301) a)) a)) (lambda (a b) (if (= a 150) {ESC} (< a b))))",
+        "hash-fn": "(let ((h (make-hash-table equal? (lambda (k . n) (if (equal? k 'bad) {ESC} 7))))) (hash-table-set! h 'ok 1) (hash-table-set! h 'bad 2) 'none)",
+        "hash-fn-regrow": "(let ((h (make-hash-table equal? (lambda (k . n) (if (and (pair? n) (> (car n) 40) (equal? k 7)) {ESC} (modulo k (if (pair? n) (car n) 5))))))) (do ((i 0 (+ i 1))) ((= i 200) 'none) (hash-table-set! h i i)))",
+        "hash-eq-fn": "(let ((h (make-hash-table (lambda (a b) (if (eq? b 'bad) {ESC} (eq? a b))) (lambda (k . n) 0)))) (hash-table-set! h 'ok 1) (hash-table-set! h 'bad 2) (hash-table-ref/default h 'bad 0))",
+        "hash-delete-eq-fn": "(let ((h (make-hash-table (lambda (a b) (if (eq? b 'bad) {ESC} (eq? a b))) (lambda (k . n) 0)))) (hash-table-set! h 'ok 1) (hash-table-delete! h 'bad) 'none)",
+        "custom-input-port": "(let ((p (make-custom-input-port (lambda (str start end) {ESC})))) (read-char p))",
+        "custom-output-port": "(let ((p (make-custom-output-port (lambda (str start end) {ESC})))) (write-string \"abc\" p) (flush-output-port p) 'none)",
+        "custom-port-close": "(let ((p (make-custom-input-port (lambda (str start end) 0) #f (lambda (port) {ESC})))) (close-input-port p) 'none)",
+        "hash-table-update!": "(let ((h (make-hash-table equal?))) (hash-table-set! h 'a 1) (hash-table-update! h 'a (lambda (v) {ESC})) 'none)",
+        "hash-table-walk": "(let ((h (make-hash-table equal?))) (hash-table-set! h 'a 1) (hash-table-walk h (lambda (k v) {ESC})) 'none)",
+        "eval": "(eval '(car (list {ESC})) (current-environment))",
+        "thread": "(thread-join! (thread-start! (make-thread (lambda () (sort (list 3 1 2) (lambda (a b) (< a b)))))))",
+    }
+    cb_esc = {
+        "raise": ("(guard (e (#t (list 'caught e))) {BODY})", "(raise 'boom)", "(caught boom)"),
+        "error": ("(guard (e (#t (list 'caught (error-object-message e)))) {BODY})", "(error \"boom\")", "(caught \"boom\")"),
+        "callcc": ("(call-with-current-continuation (lambda (k) (set! kk k) {BODY}))", "(kk 'escaped)", "escaped"),
+        "car-error": ("(guard (e (#t 'caught-type-error)) {BODY})", "(car 5)", "caught-type-error"),
+        "wind": ("(guard (e (#t (list 'caught e (reverse trail)))) (dynamic-wind (lambda () (note 'in)) (lambda () {BODY}) (lambda () (note 'out))))",
+                 "(dynamic-wind (lambda () (note 'in2)) (lambda () (raise 'boom)) (lambda () (note 'out2)))", "(caught boom (in in2 out2 out))"),
+        "uncaught": ("{BODY}", "(car 5)", None),
+    }
+    cb_probe = ("(let* ((v (vector 1 2 3)) (s (string-append \"ab\" \"cd\"))) (list (vector-map (lambda (x) (* x x)) v) s "
+                "(let lp ((i 0) (a 0)) (if (< i 1000) (lp (+ i 1) (+ a i)) a)) (sort (list 3 1 2) <) "
+                "(let ((h (make-hash-table equal?))) (hash-table-set! h \"k\" 1) (hash-table-ref/default h \"k\" 0))))")
+    cb_probe_out = "(#(1 4 9) \"abcd\" 499500 (1 2 3) 1)"
+    # what a custom port's read / write procedure raises does not reach the program (the C side has an int to return): the
+    # statement asks for "a value or an error", both are accepted there and counted
+    cb_swallowing = {"custom-input-port": "#<eof>", "custom-output-port": "none"}
+    cb_jobs = []
+    for via, body in cb_via.items():
+        for esc, (wrap, call, exp) in cb_esc.items():
+            if via == "thread" and esc != "raise":
+                continue
+            text = ("%s\n(define kk #f)\n(define trail '())\n(define (note x) (set! trail (cons x trail)))\n(write %s)\n(newline)\n(write %s)\n(newline)\n"
+                    % (cb_imports, wrap.replace("{BODY}", body.replace("{ESC}", call)), cb_probe))
+            cb_jobs.append((via, esc, exp, text))
+    cb_scenario = cb_imports + """
+(define trail '())
+(define (note x) (set! trail (cons x trail)))
+(write (call/cc (lambda (k) (sort (list 1 2 3) (lambda (a b) (sort (list 4 5 6) (lambda (c d) (k (list 'out a b c d)))) (< a b))))))
+(newline)
+(write (sort (list 3 1 2) (lambda (a b) (call/cc (lambda (k) (sort (list 9 8) (lambda (c d) (k (< a b)))) #f)))))
+(newline)
+(define p (make-parameter 0))
+(write (list (guard (e (#t (p))) (parameterize ((p 1)) (sort (list 1 2) (lambda (a b) (parameterize ((p 2)) (raise 'z)))))) (p)))
+(newline)
+(define t (make-thread (lambda () (guard (e (#t (list 'thread-caught e))) (sort (list 1 2 3) (lambda (a b) (raise 'w)))))))
+(thread-start! t)
+(write (thread-join! t))
+(newline)
+(define h (make-hash-table (lambda (a b) (if (eq? b 'boom) (raise 'eq) (equal? a b))) (lambda (k . n) 1)))
+(hash-table-set! h 1 'one)
+(hash-table-set! h 2 'two)
+(write (guard (e (#t (list 'caught e))) (hash-table-set! h 'boom 3)))
+(write (list (hash-table-size h) (hash-table-ref/default h 1 #f) (hash-table-ref/default h 2 #f)))
+(newline)
+(write (let lp ((i 0) (acc '())) (if (= i 50) (length acc) (lp (+ i 1) (cons (guard (e (#t e)) (sort (list i 2 1) (lambda (a b) (if (= a i) (raise i) (< a b))))) acc)))))
+(newline)
+"""
+    cb_scenario_out = ["(out 3 2 6 5)", "(1 2 3)", "(0 0)", "(thread-caught w)", "(caught eq)(2 one two)", "50"]
+    cb_jobs.append(("scenario", "nested", None, cb_scenario))
+
+    def run_cb(t):
+        via, esc, exp, text = t
+        pth = os.path.join(d, "cb-%s-%s.scm" % (via, esc))
+        with open(pth, "w") as fh:
+            fh.write(text)
+        return t, [(bb.variant, R.run(bb, ["-h8M/256M", pth], timeout=120)) for bb in (bh, b)]
+
+    for (via, esc, exp, text), runs in R.pmap(run_cb, cb_jobs):
+        for variant, r in runs:
+            rep.case(("callback", via, esc, variant))
+            if r.timed_out:
+                rep.inconc("watchdog", "callback %s %s %s" % (via, esc, variant))
+                continue
+            lines = r.out.strip().split("\n") if r.out.strip() else []
+            how = None
+            if r.crashed or r.sanitizer_report():
+                how = "process-died"
+            elif via == "scenario":
+                how = None if (r.rc == 0 and lines == cb_scenario_out) else "wrong-output"
+            elif esc == "uncaught":
+                # an uncaught error ends the script with the error report (exit 70) - or is swallowed by a custom port
+                ok = (r.rc == 70 and "ERROR" in r.err) or (r.rc == 0 and via in cb_swallowing and lines[-1:] == [cb_probe_out])
+                if via in ("thread",):
+                    ok = True
+                how = None if ok else "wrong-output"
+            else:
+                first_ok = lines[:1] == [exp] or (via in cb_swallowing and lines[:1] == [cb_swallowing[via]])
+                if via in cb_swallowing and lines[:1] == [cb_swallowing[via]]:
+                    rep.count("callback_errors_swallowed_by_custom_port_io")
+                if via == "thread":
+                    first_ok = lines[:1] == ["(1 2 3)"]
+                how = None if (r.rc == 0 and first_ok and lines[1:] == [cb_probe_out]) else "wrong-output"
+            if how:
+                rep.violation({"check": "callback-escape", "via": via, "escape": esc, "how": how if how != "process-died" else r.describe()},
+                              {"program": text, "build": variant, "stdout": r.out[-600:], "stderr": r.err[-1200:], "sanitizer": r.sanitizer_report()})
     # ---- deep DATA (built by a loop, not read): procedures that walk a datum recursively in C -----------------------------
     shapes = {"car-nested-list": "(let lp ((i 0) (x '())) (if (< i %d) (lp (+ i 1) (list x)) x))",
               "nested-vector": "(let lp ((i 0) (x '())) (if (< i %d) (lp (+ i 1) (vector x)) x))",
